@@ -180,6 +180,18 @@ func (b *build) runRealCase(doc []docAgent, c realCase, n int) (sig, detail stri
 		args = append(args, "--user")
 	}
 	dest := filepath.Join(base, "kessoku-di")
+	shown := dest // what the success message is expected to name
+	if c.Pre == "linked" {
+		// the base directory is a symlink into another directory (dotfiles checkout): install through it
+		target := filepath.Join(root, "dotfiles", "skills")
+		_ = os.MkdirAll(target, 0o755)
+		_ = os.MkdirAll(filepath.Dir(base), 0o755)
+		_ = os.RemoveAll(base)
+		if err := os.Symlink(target, base); err != nil {
+			drv.Broken("symlink: %v", err)
+		}
+		dest = filepath.Join(target, "kessoku-di")
+	}
 	_ = os.WriteFile(filepath.Join(cwd, "main.go"), []byte("package main\n"), 0o644)
 	_ = os.WriteFile(filepath.Join(home, ".profile"), []byte("x\n"), 0o600)
 	if c.Pre == "older" {
@@ -245,8 +257,8 @@ func (b *build) runRealCase(doc []docAgent, c realCase, n int) (sig, detail stri
 			}
 		}
 	}
-	if !strings.Contains(string(r.Out), dest) {
-		return "reported_path_wrong", fmt.Sprintf("output %q does not name %s", strings.TrimSpace(string(r.Out)), dest)
+	if !strings.Contains(string(r.Out), shown) {
+		return "reported_path_wrong", fmt.Sprintf("output %q does not name %s", strings.TrimSpace(string(r.Out)), shown)
 	}
 	return "", ""
 }
@@ -294,7 +306,11 @@ func (b *build) realCLI(out *drv.Outcome) map[string]any {
 	var cases []realCase
 	for _, a := range doc {
 		for _, f := range []realCase{{}, {User: true}, {Path: "rel"}, {Path: "abs"}, {Path: "rel", User: true}, {Path: "odd"}, {Path: "tilde"}, {Path: "tilde", User: true}} {
-			for _, pre := range []string{"fresh", "older"} {
+			pres := []string{"fresh", "older"}
+			if f.Path != "tilde" && f.Path != "odd" {
+				pres = append(pres, "linked")
+			}
+			for _, pre := range pres {
 				c := f
 				c.Agent, c.Pre = a.CLI, pre
 				cases = append(cases, c)
